@@ -163,3 +163,42 @@ Contract(P_, 'WebProcessorSession._process_loop', PS, prop='C18/C02',
                'decreases': '(%s + 1 if %s._next_request is not None else 0)' % (MW, WS)}},
     ensures=[('ends', 'True')],
     raises={'AssertionError': [], 'SSLVerificationError': []}, escape_props={'C18', 'C02', 'C09'})
+
+# ---- robots first (C20) and the robots error boundary (C09): _process_robots -----------------------------------------------------------
+if 'FetchRule.check_initial_web_request' in CONTRACTS:
+    Assumed(P_, 'WebProcessorSession._new_initial_request', dict(PS, with_body=TBool()), ret=TObj('HTTPRequest'), defaults={'with_body': True},
+            ensures=['result._url_info is not None'], raises={}, note='a fresh request for the item URL (stored URLs parse: table invariant)')
+    Contract(P_, 'WebProcessorSession._should_fetch_reason_with_robots', dict(PS, request=TObj('HTTPRequest')), ret=TTuple(TBool(), TStr()), prop='C20',
+        requires=list(c_.text for c_ in CONTRACTS['FetchRule.check_initial_web_request'].requires) and
+                 [c_.text.replace('self.', FR + '.').replace('item_session', IS) for c_ in CONTRACTS['FetchRule.check_initial_web_request'].requires] + ['request._url_info is not None'],
+        modifies=[m.replace('self.', FR + '.') for m in CONTRACTS['FetchRule.check_initial_web_request'].modifies],
+        ensures=[('robots-verdict-included', 'implies(result[0], %s._robots_txt_checker is None or robots_allowed(%s._robots_txt_checker, request))' % (FR, FR))],
+        raises={'ServerError': [], 'ProtocolError': [], 'NetworkError': [], 'SSLVerificationError': []})
+    lib.MODULE_CONSTS['REMOTE_ERRORS'] = VTuple([VFunc('class', n) for n in ('ServerError', 'ProtocolError', 'SSLVerificationError', 'NetworkError')]) if 'REMOTE_ERRORS' not in lib.MODULE_CONSTS else lib.MODULE_CONSTS['REMOTE_ERRORS']
+    Contract(P_, 'WebProcessorSession._process_robots', PS, ret=TBool(), prop='C20/C09',
+        requires=[c_.text.replace('self.', FR + '.').replace('item_session', IS) for c_ in CONTRACTS['FetchRule.check_initial_web_request'].requires if 'request' not in c_.text] +
+                 ['not %s._processed' % IS, 'not %s._try_count_incremented' % IS],
+        modifies=['%s._request' % IS, '%s._processed' % IS, '%s._try_count_incremented' % IS, '%s.g_checkins' % HR_T, '%s.g_try_increments' % HR_T, '%s.g_last_status' % HR_T] +
+                 [m.replace('self.', FR + '.') for m in CONTRACTS['FetchRule.check_initial_web_request'].modifies],
+        ensures=[('go-ahead-only-with-a-positive-robots-verdict', 'implies(result, %s._request is not None and (%s._robots_txt_checker is None or robots_allowed(%s._robots_txt_checker, %s._request)))' % (IS, FR, FR, IS)),
+                 ('refused-or-failed-ends-the-visit', 'implies(not result, %s._processed)' % IS)],
+        raises={'AssertionError': [], 'SSLVerificationError': []},
+        note='a REMOTE_ERRORS exception from the robots.txt fetch ends in ResultRule.handle_error and a normal return (C09); SSLVerificationError may be re-raised by handle_error by design')
+if 'WebProcessorSession._process_robots' in CONTRACTS:
+    declare_class('WebClientP', {})
+    declare_class('WebProcessor', {'web_client': TObj('WebClientP')})
+    Assumed('wpull/processor/rule.py', 'ProcessingRule.add_extra_urls', {'self': TObj('ProcessingRule'), 'item_session': TObj('ItemSession')}, raises={}, note='queues extra URLs in the table; sends nothing')
+    Assumed(W, 'WebClient.session', {'self': TObj('WebClientP'), 'request': TObj('HTTPRequest')}, name='WebClientP.session', ret=TObj('WebSession'),
+            ensures=['result.g_requests == 0'], raises={}, note='a fresh WebSession: nothing requested yet')
+    Assumed(W, 'WebSession.__enter__', S, raises={})
+    Assumed(W, 'WebSession.__exit__', dict(S, failed=TBool()), raises={})
+    Assumed(P_, 'WebProcessorSession._process_loop', PS, name='WebProcessorSession._process_loop@call', modifies=CONTRACTS['WebProcessorSession._process_loop'].modifies,
+            raises={'AssertionError': [], 'SSLVerificationError': []}, note='call-site view; body verified above (C18/C02/C09)')
+    Contract(P_, 'WebProcessorSession.process', PS, prop='C20',
+        requires=[c_.text for c_ in CONTRACTS['WebProcessorSession._process_robots'].requires] + ['self._web_client_session is None'],
+        modifies=CONTRACTS['WebProcessorSession._process_robots'].modifies + ['self._web_client_session'] + [m for m in CONTRACTS['WebProcessorSession._process_loop'].modifies],
+        ghost_out={'went_ahead': (TBool(), 'ok')},
+        ensures=[('no-web-session-without-the-robots-verdict', 'implies(not went_ahead, self._web_client_session is None)')],
+        raises={'AssertionError': [], 'SSLVerificationError': []},
+        note='the first (and every) request of the visit is made by the web session created AFTER _process_robots returned True; when the verdict is negative or the '
+             'robots.txt fetch failed, no web session exists, i.e. nothing of this origin is requested')
